@@ -431,3 +431,55 @@ func Pick(rs []Rec, want uint16) (Rec, []Rec) {
 	}
 	return first, out
 }
+
+// ---- promoted fields, functions as values, inlined local closures
+
+type Base struct {
+	Code int
+	Flag bool
+}
+type Wrap struct {
+	Base
+	Items []int
+}
+
+func Promo(w Wrap, add int) (int, Wrap) {
+	if w.Flag {
+		w.Code += add
+	} else {
+		w.Flag = add > 3
+	}
+	return w.Code + len(w.Items), w
+}
+
+func isOdd(x int) bool { return x%2 != 0 }
+
+func dropIf(xs []int, drop func(int) bool) []int {
+	var out []int
+	for _, x := range xs {
+		if drop(x) {
+			continue
+		}
+		out = append(out, x)
+	}
+	return out
+}
+
+func Evens(xs []int) []int { return dropIf(xs, isOdd) }
+
+func Bound(xs []int, limit int) int {
+	m := limit
+	bound := func(c int) {
+		if c < m {
+			m = c
+		}
+	}
+	for _, x := range xs {
+		bound(x + 10)
+		if x < 0 {
+			bound(-x)
+		}
+	}
+	bound(limit - 1)
+	return m
+}
